@@ -22,8 +22,8 @@
 //	               after every Write the harness overwrites the buffer it passed (the server must not keep it);
 //	               a Flush that returns an error adds "fe"
 //	write results: per w action  <n> | b (ErrBodyNotAllowed) | c (more than declared Content-Length) | e (other error);
-//	               (also for HEAD requests: there the bufio.Writer reports io.ErrShortWrite — printed "e" — once the flush
-//	               that sends the HEADERS has returned 0 bytes written)
+//	               for HEAD requests a Write that reaches the bufio.Writer is printed "w" whatever it returned: the real
+//	               result (byte count, io.ErrShortWrite or errStreamClosed) depends on goroutine timing in writeHeaders
 //
 // The automatically added date is printed as "@"; a sniffed content-type (http.DetectContentType, an
 // external function) is printed as "@" (scripts only ever set the values x/y, t/h and "").
@@ -353,6 +353,17 @@ func run(head bool, acts []action) string {
 	fs := strings.Join(frames, "/")
 	if fs == "" {
 		fs = "-"
+	}
+	if head {
+		// In the real code the outcome of a HEAD handler's Write depends on goroutine timing: the HEADERS frame carries
+		// END_STREAM, so wroteFrame answers the waiting writeHeaders call AND closes the stream (st.cw); writeHeaders'
+		// select may pick either (nil or errStreamClosed), and bufio makes the error sticky.  No frame depends on it.
+		// For HEAD only the class "reached the bufio.Writer" (w) is compared; b / c / fe stay exact.
+		for i, r := range wres {
+			if r == "e" || (r != "b" && r != "c" && r != "fe") {
+				wres[i] = "w"
+			}
+		}
 	}
 	ws := strings.Join(wres, ",")
 	if ws == "" {
